@@ -153,7 +153,7 @@ Print Assumptions C03_pr_old_bound_iff.
 
 Theorem C03_pr_peak_closed : forall rc wc x R k, 0 <= rc -> 0 <= wc -> 0 <= x -> 0 <= R -> (3 <= k)%nat ->
   pr_task_peak rc wc x R R true k
-  = Z.max (3 * R + x * rc + x) (Z.max (4 * R + x) (Z.max (5 * R) (R + R * wc))).
+  = Z.max (3 * R + x * rc + x) (Z.max (5 * R) (R + R * wc)).
 Proof. exact (pr_peak_closed). Qed.
 Print Assumptions C03_pr_peak_closed.
 
